@@ -17,6 +17,7 @@ This module also hosts what C19 shares with C18 (class zoo, probing, encoders)."
 from __future__ import annotations
 
 import importlib
+import itertools
 import json
 import re
 import struct
@@ -48,8 +49,12 @@ THEOREMS = [
     "KrroodVerif.Json.C18_tag",
     "KrroodVerif.Json.resolve_resolvable",
     "KrroodVerif.Json.rsplit_fullName",
+    "KrroodVerif.Json.C18_roundtrip_shared",
+    "KrroodVerif.Json.C18_history",
+    "KrroodVerif.Json.C18_registered_wf",
+    "KrroodVerif.Json.serializable_of_wf",
 ]
-MODEL_FUNCTION = "Json.toJson / Json.fromJson / Json.resolve / Json.wf (Model/Json.lean)"
+MODEL_FUNCTION = "Json.toJson / Json.fromJson / Json.resolve / Json.wf / Json.expand / Json.stepOp (Model/Json.lean)"
 TRUSTED = [
     "Lean 4.33 kernel; axioms of each theorem listed under coverage.theorems",
     "hand-written model Model/Json.lean of to_json / from_json / SubclassJSONSerializer.to_json / .from_json and the registry",
@@ -62,12 +67,19 @@ ASSUMPTIONS = [
     "_from_json rebuilds cls from every entry but the tag through from_json; registered (de)serializers are mutually inverse "
     "and write the tag of type(obj)",
     "classes are module-level, reachable under __name__ in __module__ (Json.wf); NaN excluded (NaN != NaN)",
+    "values are finite: a list / object may be referenced from several places (DAG) but never contains itself",
+    "a registration is a matching (serializer, deserializer) pair keeping the payload under one key (Registration.key); "
+    "the registry only grows or replaces (there is no API to forget a type)",
 ]
 RULE = ("corpus, then a fixed family (every leaf, every class empty / holding every leaf kind, list nestings to depth 6, "
         "every registered type, every class in one list, classes sharing one __name__ across three modules side by side / "
-        "nested in every order), then random values of depth <= 5 (quick) / 7 (thorough) over the "
-        "harness class zoo; every case goes through real JSON text; non-trivial = the value contains at least one object "
-        "or a list nested in a list; distinct by case text")
+        "nested in every order, DAG-shaped values in which one list / one object is referenced from several places, registry "
+        "histories: failed attempt -> register -> round trip, register -> serialise -> re-register under another encoding -> "
+        "round trip, stored documents read before/after a registration, two types interleaved), then random values of "
+        "depth <= 5 (quick) / 7 (thorough) over the harness class zoo — one position in eight re-uses an already built list or "
+        "object (same id()) — and, one case in six, a random registry history of 2..7 operations on brand-new third-party "
+        "classes; every case goes through real JSON text; non-trivial = the value contains at least one object or a list "
+        "nested in a list; distinct by case text")
 
 KEY = JSON_TYPE_NAME
 
@@ -456,11 +468,74 @@ def a_function():  # a module attribute that is a function (C19)
 Alias = NodeB  # a second name for a class: the tag never uses it, but a document may (C19)
 
 
+ALIAS: Dict[type, Tuple[str, str, str]] = {}  # real history class -> (ident, module, name) used in case lines
+
+
 def ident(cls) -> str:
+    if cls in ALIAS:
+        return ALIAS[cls][0]
     return f"{cls.__module__}:{cls.__qualname__}"
 
 
 CLASS_BY_IDENT = {ident(c): c for c in SER_CLASSES + list(EXT) + [NotSerializable]}
+
+# third-party types of registry HISTORIES -------------------------------------------------------------------------
+# A history needs types that are NOT registered when it starts, and the registry has no way to forget a type. So
+# every evaluation of a history case (first run, shrink step, replay) makes brand-new plain classes in the module
+# `props._c18_hist` and the case line talks about them under logical names H0, H1, ….
+
+HIST_MOD = _new_module("_c18_hist")
+_hist_counter = itertools.count()
+
+
+def fresh_hist_classes(k: int) -> List[type]:
+    out = []
+    for i in range(k):
+        real = f"H{next(_hist_counter)}_{i}"
+
+        class _H:
+            def __init__(self, s: str):
+                self.s = s
+
+            def __eq__(self, other):
+                return type(self) is type(other) and self.s == other.s
+
+            __hash__ = None
+
+            def __repr__(self):
+                return f"{type(self).__name__}({self.s!r})"
+
+        _H.__name__ = _H.__qualname__ = real
+        _H.__module__ = HIST_MOD.__name__
+        setattr(HIST_MOD, real, _H)
+        ALIAS[_H] = (f"hist:H{i}", HIST_MOD.__name__, f"H{i}")
+        out.append(_H)
+    return out
+
+
+def is_ext(t) -> bool:
+    return t in EXT or t in ALIAS
+
+
+def ext_payload(v) -> str:
+    t = type(v)
+    return v.s if t in ALIAS else EXT[t][0](v)
+
+
+def hist_register(cls, key: str) -> None:
+    """register a matching (serializer, deserializer) pair that keeps the payload under `key`"""
+    full = cls.__module__ + "." + cls.__name__
+
+    def ser(obj):
+        return {JSON_TYPE_NAME: full, key: obj.s}
+
+    def deser(data, **kwargs):
+        v = data.get(key) if isinstance(data, dict) else None
+        if not isinstance(v, str):
+            raise PayloadError(key)
+        return cls(v)
+
+    JSONSerializableTypeRegistry().register(cls, ser, deser)
 
 # ---------------------------------------------------------------------------------------------- S-expressions
 
@@ -537,34 +612,79 @@ def dec_str(x) -> str:
 
 
 def enc_cls(cls) -> str:
+    if cls in ALIAS:
+        i, m, n = ALIAS[cls]
+        return f"(k {enc_str(i)} {enc_str(m)} {enc_str(n)})"
     return f"(k {enc_str(ident(cls))} {enc_str(cls.__module__)} {enc_str(cls.__name__)})"
 
 
+def _shared_ids(v) -> Dict[int, int]:
+    """ids of the list objects / serialisable objects that occur more than once in the value -> label"""
+    seen: Dict[int, int] = {}
+
+    def walk(x):
+        t = type(x)
+        if t is list or t in SER_CLASSES:
+            seen[id(x)] = seen.get(id(x), 0) + 1
+            for y in (x if t is list else fields_of(x).values()):
+                walk(y)
+
+    walk(v)
+    labels: Dict[int, int] = {}
+    for i, n in seen.items():  # insertion order = document order of the first occurrence
+        if n > 1:
+            labels[i] = len(labels)
+    return labels
+
+
 def enc_val(v, raw: bool = False) -> str:
-    """the value as the Lean `PyVal` (raw: strings/payloads verbatim — only for plain-ASCII content)"""
+    """the value as the Lean `SVal` (raw: strings/payloads verbatim — only for plain-ASCII content). An object that is
+    referenced from several places is written `(def n …)` at its first occurrence and `(ref n)` afterwards."""
     tok = (lambda s: enc_str(s)) if raw else (lambda s: '"' + hex_tok(s) + '"')
-    t = type(v)
-    if v is None:
-        return "N"
-    if t is bool:
-        return "T" if v else "F"
-    if t is int:
-        return f"(i {v})"
-    if t is float:
-        return f"(f {float_bits(v)})"
-    if t is str:
-        return f"(s {tok(v)})"
-    if t is list:
-        return "(l" + "".join(" " + enc_val(x, raw) for x in v) + ")"
-    if t in EXT:
-        return f"(x {enc_cls(t)} {tok(EXT[t][0](v))})"
-    if t in SER_CLASSES:
-        return f"(o {enc_cls(t)}" + "".join(f" ({enc_str(k)} {enc_val(x, raw)})" for k, x in fields_of(v).items()) + ")"
-    raise TypeError(f"value outside the grammar: {t}")
+    labels = _shared_ids(v)
+    done = set()
+
+    def enc(x) -> str:
+        t = type(x)
+        if x is None:
+            return "N"
+        if t is bool:
+            return "T" if x else "F"
+        if t is int:
+            return f"(i {x})"
+        if t is float:
+            return f"(f {float_bits(x)})"
+        if t is str:
+            return f"(s {tok(x)})"
+        if is_ext(t):
+            return f"(x {enc_cls(t)} {tok(ext_payload(x))})"
+        if t is list or t in SER_CLASSES:
+            lab = labels.get(id(x))
+            if lab is not None and id(x) in done:
+                return f"(ref {lab})"
+            if t is list:
+                body = "(l" + "".join(" " + enc(y) for y in x) + ")"
+            else:
+                body = f"(o {enc_cls(t)}" + "".join(f" ({enc_str(k)} {enc(y)})" for k, y in fields_of(x).items()) + ")"
+            if lab is not None:
+                done.add(id(x))
+                return f"(def {lab} {body})"
+            return body
+        raise TypeError(f"value outside the grammar: {t}")
+
+    return enc(v)
 
 
-def dec_val(x, raw: bool = False):
+DECODE_EXTRA: Dict[str, type] = {}  # logical ident -> fresh history class, during one evaluation
+
+
+def _class_of_ident(i: str) -> type:
+    return DECODE_EXTRA[i] if i in DECODE_EXTRA else CLASS_BY_IDENT[i]
+
+
+def dec_val(x, raw: bool = False, labels: Optional[Dict[int, Any]] = None):
     untok = (lambda s: s) if raw else unhex_tok
+    labels = {} if labels is None else labels
     if x == "N":
         return None
     if x == "T":
@@ -578,14 +698,20 @@ def dec_val(x, raw: bool = False):
         return bits_float(int(x[1]))
     if h == "s":
         return untok(dec_str(x[1]))
+    if h == "def":
+        obj = dec_val(x[2], raw, labels)
+        labels[int(x[1])] = obj
+        return obj
+    if h == "ref":
+        return labels[int(x[1])]
     if h == "l":
-        return [dec_val(y, raw) for y in x[1:]]
+        return [dec_val(y, raw, labels) for y in x[1:]]
     if h == "x":
-        cls = CLASS_BY_IDENT[dec_str(x[1][1])]
-        return EXT[cls][1](untok(dec_str(x[2])))
+        cls = _class_of_ident(dec_str(x[1][1]))
+        return cls(untok(dec_str(x[2]))) if cls in ALIAS else EXT[cls][1](untok(dec_str(x[2])))
     if h == "o":
-        cls = CLASS_BY_IDENT[dec_str(x[1][1])]
-        return cls(**{dec_str(kv[0]): dec_val(kv[1], raw) for kv in x[2:]})
+        cls = _class_of_ident(dec_str(x[1][1]))
+        return cls(**{dec_str(kv[0]): dec_val(kv[1], raw, labels) for kv in x[2:]})
     raise ValueError(x)
 
 
@@ -605,8 +731,8 @@ def canon(v, raw: bool = False) -> str:
         return "s" + tok(v)
     if t is list:
         return "[" + ",".join(canon(x, raw) for x in v) + "]"
-    if t in EXT:
-        return "x{" + ident(t) + "|" + tok(EXT[t][0](v)) + "}"
+    if is_ext(t):
+        return "x{" + ident(t) + "|" + tok(ext_payload(v)) + "}"
     if t in SER_CLASSES:
         return "o{" + ident(t) + "|" + ",".join(f"{k}={canon(x, raw)}" for k, x in sorted(fields_of(v).items())) + "}"
     return f"?{t.__module__}:{t.__qualname__}"
@@ -679,7 +805,7 @@ def classes_of(v, acc=None) -> List[type]:
     if t is list:
         for x in v:
             classes_of(x, acc)
-    elif t in EXT:
+    elif is_ext(t):
         acc.append(t)
     elif t in SER_CLASSES:
         acc.append(t)
@@ -693,9 +819,39 @@ def make_case(v, tags=(), origin="random") -> Case:
     return Case(f"(rt {env} {enc_val(v)})", tuple(tags) + shape_tags(v), origin, payload=v)
 
 
+def hist_env(values) -> str:
+    """environment of a history case: probed for the ordinary classes, synthetic (present, plain, NOT registered) for
+    the logical history classes H0, H1, … — their registration is what the history is about"""
+    cs = [c for v in values for c in classes_of(v)]
+    probed = enc_env([(c.__module__, c.__name__) for c in cs if c not in ALIAS])
+    hs = sorted({ALIAS[c] for c in cs if c in ALIAS})
+    extra = ""
+    if hs:
+        extra = f" (mod {enc_str(hs[0][1])} ok)" + "".join(
+            f" (attr {enc_str(m)} {enc_str(n)} (cls (k {enc_str(i)} {enc_str(m)} {enc_str(n)}) F F T))" for i, m, n in hs)
+    return probed[:-1] + extra + ")"
+
+
+def make_hist_case(ops, tags=(), origin="random") -> Case:
+    """ops: list of ("reg", cls, key) | ("ser", value) | ("rt", value) | ("de", cls, key, payload string)"""
+    vals = [o[1] for o in ops if o[0] in ("ser", "rt")] + [o[1]("") for o in ops if o[0] in ("reg", "de")]
+    parts = []
+    for o in ops:
+        if o[0] == "reg":
+            parts.append(f"(reg {enc_cls(o[1])} {enc_str(o[2])})")
+        elif o[0] == "de":
+            parts.append(f"(de {enc_cls(o[1])} {enc_str(o[2])} \"{hex_tok(o[3])}\")")
+        else:
+            parts.append(f"({o[0]} {enc_val(o[1])})")
+    kinds = f"{len(ops)}ops"
+    return Case(f"(hist {hist_env(vals)} {' '.join(parts)})", tuple(tags) + ("history", f"history:{kinds}"[:40]), origin,
+                payload=None)
+
+
 def revive(case: Case) -> Case:
-    """rebuild the python value from the line and re-probe the environment from the running interpreter"""
-    if case.payload is not None:
+    """rebuild the python value from the line and re-probe the environment from the running interpreter (history cases
+    are always evaluated from their line: they need fresh classes each time)"""
+    if case.payload is not None or case.line.startswith("(hist"):
         return case
     s = parse_sexp(case.line)
     v = dec_val(s[2])
@@ -712,7 +868,7 @@ STRS = ["", "a", "Rex", "ü", "\x00", "\U0001F600", "\ud800", "a\x00b\U0001F600"
 FIELD_NAMES = ["a", "b", "x", "value", "fields", "type", "name", "_p", "k9", "data", "cls", "kwargs", "json"]
 
 
-def gen_leaf(rng):
+def gen_leaf(rng, extra=()):
     k = rng.randrange(9)
     if k == 0:
         return None
@@ -727,6 +883,8 @@ def gen_leaf(rng):
             return rng.choice(STRS)
         return "".join(chr(rng.choice([rng.randrange(32, 127), rng.randrange(0xA0, 0x800), rng.randrange(0x10000, 0x10400)]))
                        for _ in range(rng.randrange(0, 6)))
+    if extra and rng.random() < 0.6:
+        return rng.choice(extra)(rng.choice(["", "p", "1/3", "ü"]))
     return gen_ext(rng)
 
 
@@ -741,17 +899,30 @@ def gen_ext(rng):
     return rng.choice(EXT_MONEY[1:])(rng.choice(["", "12.50 EUR", "ü"]))
 
 
-def gen_value(rng, depth: int):
+def gen_value(rng, depth: int, pool: Optional[list] = None, extra=(), share: float = 0.12):
+    """a value of the grammar; `pool` collects the lists / objects built so far so that a later position may reference
+    one of them AGAIN (the same Python object: a DAG, never a cycle — only finished values are in the pool)"""
+    pool = [] if pool is None else pool
+    if pool and rng.random() < share:
+        return rng.choice(pool)
     if depth <= 0 or rng.random() < 0.25:
-        return gen_leaf(rng)
+        return gen_leaf(rng, extra)
     r = rng.random()
     if r < 0.4:
-        return [gen_value(rng, depth - 1) for _ in range(rng.choice([0, 1, 1, 2, 2, 3, 4]))]
+        n = rng.choice([0, 1, 1, 2, 2, 3, 4])
+        if n and rng.random() < 0.08:  # the `[x] * n` idiom
+            v = [gen_value(rng, depth - 1, pool, extra, share)] * n
+        else:
+            v = [gen_value(rng, depth - 1, pool, extra, share) for _ in range(n)]
+        pool.append(v)
+        return v
     cls = rng.choice(SER_CLASSES)
     names = schema(cls)
     if names is None:
         names = rng.sample(FIELD_NAMES, rng.choice([0, 1, 1, 2, 2, 3]))
-    return cls(**{k: gen_value(rng, depth - 1) for k in names})
+    v = cls(**{k: gen_value(rng, depth - 1, pool, extra, share) for k in names})
+    pool.append(v)
+    return v
 
 
 def shape_tags(v) -> Tuple[str, ...]:
@@ -761,8 +932,10 @@ def shape_tags(v) -> Tuple[str, ...]:
     sd = max([depth_of(c) for c in cs if c in SER_CLASSES], default=0)
     if sd:
         out.append(f"subclassdepth{sd}")
-    if any(c in EXT for c in cs):
+    if any(is_ext(c) for c in cs):
         out.append("registered-type")
+    if _shared_ids(v):
+        out.append("shared-subvalues")
     names = [c.__name__ for c in set(cs)]
     if len(names) != len(set(names)):
         out.append("same-name-classes-in-one-value")
@@ -808,7 +981,76 @@ def fixed_family() -> List[Case]:
     out.append(make_case([cls() if cls in GENERIC else _mk(cls, 1) for cls in SER_CLASSES] + exts, ("all-classes",), "exhaustive"))
     out.append(make_case([[NodeA(x=[Dog("d", [Cat(None, 1.5, [])], NodeM())])], []], ("mixed",), "exhaustive"))
     out += same_name_family()
+    out += shared_family()
+    out += history_family()
     return out
+
+
+def shared_family() -> List[Case]:
+    """values in which ONE list object / ONE serialisable object is referenced from several places (no cycles)"""
+    out = []
+    tag = ("shared",)
+    e: list = []
+    row = [0] * 3
+    shapes = [Dog("s", 1, "b"), Cat("c", 2.5, 9)]
+    n = NodeA(a=1)
+    m = NodeBA(x=[n])
+    u = uuid.UUID(int=1)
+    deep: Any = [None]
+    for _ in range(4):
+        deep = [deep, deep]
+    vals = [
+        [e, e], [e, [e]], [[e], e], [e, e, e], [row] * 3, [[row] * 2] * 2, [row, [row, [row]]],
+        ["first", shapes, ["second", shapes], u], [shapes, shapes], [n, n], Node(a=n, b=n), Node(a=row, b=[row]),
+        [m, n, m], NodeB(a=[n, [n]], b=n), Node(a=e, b=e, x=[e]), [Node(a=row), Node(a=row)], [u, u, [u]],
+        [Money("m")] * 2, deep, [[[e]], [[e]]], Node(a=shapes, b=Node(a=shapes)), [[1, [2, row]], [3, row], row],
+    ]
+    for v in vals:
+        out.append(make_case(v, tag, "exhaustive"))
+    return out
+
+
+HIST_KEYS = ["value", "text", "tuple", "n"]
+
+
+def history_family() -> List[Case]:
+    """registry histories: register on demand after a failed attempt; a registration replaced between the first
+    serialisation and the first deserialisation; a stored document read before / after; two types interleaved"""
+    out = []
+    tag = ("history-fixed",)
+    for k1 in HIST_KEYS[:2]:
+        for k2 in HIST_KEYS:
+            A, B = fresh_hist_classes(2)
+            v = [A("1/3"), Node(a=A("-7/2"))]
+            out.append(make_hist_case([("rt", v), ("reg", A, k1), ("rt", v)], tag, "exhaustive"))
+            out.append(make_hist_case([("ser", v), ("reg", A, k1), ("ser", v), ("rt", v)], tag, "exhaustive"))
+            out.append(make_hist_case([("de", A, k1, "p"), ("reg", A, k1), ("rt", v), ("de", A, k1, "p")], tag, "exhaustive"))
+            out.append(make_hist_case([("reg", A, k1), ("ser", [A("1.50")]), ("reg", A, k2), ("rt", [A("1.50"), A("-0E-7")])],
+                                      tag, "exhaustive"))
+            out.append(make_hist_case([("reg", A, k1), ("rt", v), ("reg", A, k2), ("rt", v), ("de", A, k1, "q"), ("de", A, k2, "q")],
+                                      tag, "exhaustive"))
+            out.append(make_hist_case([("reg", A, k1), ("de", A, k1, "p"), ("reg", A, k2), ("ser", v), ("rt", v)], tag, "exhaustive"))
+            w = [A("a"), B("b"), [B("b2"), A("a2")]]
+            out.append(make_hist_case([("rt", w), ("reg", B, k2), ("rt", w), ("rt", [B("b")]), ("reg", A, k1), ("rt", w),
+                                       ("reg", B, k1), ("rt", w)], tag, "exhaustive"))
+    return out
+
+
+def gen_history(rng) -> Case:
+    classes = fresh_hist_classes(rng.choice([1, 1, 2]))
+    ops = []
+    for _ in range(rng.randrange(2, 8)):
+        r = rng.random()
+        c = rng.choice(classes)
+        if r < 0.3:
+            ops.append(("reg", c, rng.choice(HIST_KEYS)))
+        elif r < 0.42:
+            ops.append(("de", c, rng.choice(HIST_KEYS), rng.choice(["", "p", "ü"])))
+        else:
+            inner = gen_value(rng, rng.randrange(0, 3), None, classes)
+            v = rng.choice([c("p"), [c("1/3"), inner], Node(a=c("q"), b=inner), [inner, [c("r")]], inner])
+            ops.append(("ser" if r < 0.58 else "rt", v))
+    return make_hist_case(ops)
 
 
 def _inst(cls, inner=None):
@@ -851,10 +1093,21 @@ def budget(tier: str) -> int:
 def generate(rng, tier, n):
     cases = fixed_family()
     maxd = 5 if tier == "quick" else 7
-    for _ in range(n):
-        v = gen_value(rng, rng.randrange(1, maxd + 1))
+    for i in range(n):
+        if i % 6 == 5:
+            cases.append(gen_history(rng))
+            continue
+        v = gen_value(rng, rng.randrange(1, maxd + 1), share=rng.choice([0.0, 0.1, 0.2, 0.3]))
         cases.append(make_case(v))
     return cases
+
+
+def compare(impl: str, other: str) -> bool:
+    """histories: one observation per operation; `*` (specification only) = no demand for this operation"""
+    if " / " in other or other == "*":
+        a, b = impl.split(" / "), other.split(" / ")
+        return len(a) == len(b) and all(y == "*" or x == y for x, y in zip(a, b))
+    return impl == other
 
 
 def nontrivial(case: Case, spec: str) -> bool:
@@ -862,11 +1115,43 @@ def nontrivial(case: Case, spec: str) -> bool:
 
 
 def shrink(case: Case):
+    if case.line.startswith("(hist"):
+        yield from _shrink_hist(case)
+        return
     v = case.payload
     if v is None:
         v = revive(case).payload
     for w in _smaller(v):
         yield make_case(w, ("shrink",), "shrink")
+
+
+def _shrink_hist(case: Case):
+    """drop one operation (textually: the line is the payload)"""
+    s = parse_sexp(case.line)
+    head, ops = case.line[:case.line.index(")) (") + 2] if ")) (" in case.line else None, s[2:]
+    if head is None or len(ops) <= 1:
+        return
+    texts = _split_top(case.line[len(head):-1].strip())
+    for i in range(len(texts)):
+        yield Case(head + " " + " ".join(texts[:i] + texts[i + 1:]) + ")", ("shrink", "history"), "shrink")
+
+
+def _split_top(text: str) -> List[str]:
+    out, depth, cur, instr = [], 0, "", False
+    for ch in text:
+        if ch == '"':
+            instr = not instr
+        if not instr:
+            if ch == "(":
+                depth += 1
+            elif ch == ")":
+                depth -= 1
+        cur += ch
+        if depth == 0 and not instr and cur.strip():
+            if ch == ")":
+                out.append(cur.strip())
+                cur = ""
+    return out
 
 
 def _smaller(v):
@@ -889,7 +1174,7 @@ def _smaller(v):
         for k, x in fs.items():
             for y in _smaller(x):
                 yield t(**{**fs, k: y})
-    elif v is not None and t not in EXT:
+    elif v is not None and not is_ext(t):
         yield None
 
 
@@ -904,6 +1189,8 @@ DOC_ERRORS = ("MissingTypeError", "InvalidTypeFormatError", "UnknownModuleError"
 def exc_name(e: BaseException) -> str:
     if isinstance(e, JSONSerializationError):
         n = type(e).__name__
+        if n == "ClassNotSerializableError" and type(e).__module__ == JSONSerializationError.__module__:
+            return n
         return n if n in DOC_ERRORS and type(e).__module__ == JSONSerializationError.__module__ else "jse:" + n
     if isinstance(e, PayloadError):
         return "payload"
@@ -935,7 +1222,7 @@ def tags_walk(v, j) -> List[str]:
         if type(j) is not list or len(j) != len(v):
             return ["!shape"]
         return [s for x, y in zip(v, j) for s in tags_walk(x, y)]
-    if t in EXT:
+    if is_ext(t):
         return [show_tag(j)]
     if t in SER_CLASSES:
         out = [show_tag(j)]
@@ -964,9 +1251,54 @@ def _prelude() -> None:
             pass
 
 
+def _logical_tags(tags: List[str]) -> str:
+    """tags of history classes are written under their logical names"""
+    table = {c.__module__ + "." + c.__name__: ALIAS[c][1] + "." + ALIAS[c][2] for c in DECODE_EXTRA.values()}
+    return ",".join(table.get(t, t) for t in tags)
+
+
+def _one_hist(case: Case) -> str:
+    """a registry history on brand-new classes: one observation per operation"""
+    s = parse_sexp(case.line)
+    idents = sorted(set(re.findall(r'hist:H(\d+)', case.line)), key=int)
+    classes = fresh_hist_classes((max(int(i) for i in idents) + 1) if idents else 0)
+    DECODE_EXTRA.clear()
+    DECODE_EXTRA.update({ALIAS[c][0]: c for c in classes})
+    obs = []
+    try:
+        for op in s[2:]:
+            try:
+                if op[0] == "reg":
+                    hist_register(_class_of_ident(dec_str(op[1][1])), dec_str(op[2]))
+                    obs.append("ok")
+                elif op[0] == "ser":
+                    v = dec_val(op[1])
+                    back = json.loads(json.dumps(to_json(v)))
+                    obs.append("ok;tags=" + _logical_tags(tags_walk(v, back)))
+                elif op[0] == "rt":
+                    v = dec_val(op[1])
+                    obs.append(canon(from_json(json.loads(json.dumps(to_json(v))))))
+                elif op[0] == "de":
+                    c = _class_of_ident(dec_str(op[1][1]))
+                    doc = {JSON_TYPE_NAME: c.__module__ + "." + c.__name__, dec_str(op[2]): unhex_tok(dec_str(op[3]))}
+                    obs.append(canon(from_json(json.loads(json.dumps(doc)))))
+                else:
+                    obs.append("bad-op")
+            except Exception as e:  # noqa: BLE001
+                obs.append(exc_name(e))
+    finally:
+        DECODE_EXTRA.clear()
+    return " / ".join(obs)
+
+
 def _one(case: Case) -> str:
     tags = "!none"
     _prelude()
+    if case.line.startswith("(hist"):
+        try:
+            return _one_hist(case)
+        except Exception as e:  # noqa: BLE001
+            return "harness-error:" + type(e).__name__
     try:
         v = case.payload if case.payload is not None else revive(case).payload
         j = to_json(v)
